@@ -637,11 +637,15 @@ func (c *ctx) random(n int, tees []int) {
 			}
 		}
 		// TLS phase
-		np := rnd.Intn(4)
+		np := rnd.Intn(5)
 		for k := 0; k < np; k++ {
-			hh := hdr(!rnd.Chance(1, 15))
-			hh.variant = rnd.Intn(12)
-			sc.prot = append(sc.prot, pu{u: hh})
+			// (a round without a header: what follows a required feature that was
+			// negotiated without a stream restart)
+			if k == 0 || !rnd.Chance(1, 3) {
+				hh := hdr(!rnd.Chance(1, 15))
+				hh.variant = rnd.Intn(12)
+				sc.prot = append(sc.prot, pu{u: hh})
+			}
 			if rnd.Chance(1, 12) {
 				sc.prot = append(sc.prot, pu{junk: true})
 			}
@@ -667,6 +671,60 @@ func (c *ctx) random(n int, tees []int) {
 			}
 			c.sni(rnd.Chance(1, 4), ss, "random-sni")
 		}
+	}
+}
+
+// deep generates scripts that get far into the TLS phase: a valid clear phase, then a chain of
+// rounds each advertising one configured feature, with the header only where the previous
+// result asked for a restart, so that the selection loop, restarts, rounds without a header
+// and the final empty list are all reached.
+func (c *ctx) deep(n int, tees []int) {
+	rnd := c.r.Rnd
+	for i := 0; i < n; i++ {
+		sc := scenario{domain: rnd.Intn(4), explicit: rnd.Chance(1, 3)}
+		for k := 1; k <= 3; k++ {
+			o := other{id: k, nec: 1, negotiable: true}
+			if rnd.Chance(1, 4) {
+				o.proh = 2
+			}
+			sc.others = append(sc.others, o)
+		}
+		sc.clear = [][]unit{{hdr(true), list(it(0, !rnd.Chance(1, 5)))}, {u('P')}}
+		if rnd.Chance(1, 3) {
+			sc.clear = [][]unit{{hdr(true), list()}, {u('P')}} // forced attempt
+		}
+		needHdr := true
+		rounds := 1 + rnd.Intn(4)
+		for k := 0; k < rounds; k++ {
+			if needHdr {
+				sc.prot = append(sc.prot, pu{u: hdr(true)})
+			}
+			id := 1 + rnd.Intn(3)
+			req := rnd.Chance(2, 3)
+			l := list(item{id: id, req: req, ok: true})
+			if rnd.Chance(1, 4) {
+				l.items = append(l.items, item{id: 9, req: rnd.Bool(), ok: true})
+			}
+			if rnd.Chance(1, 5) {
+				// a second configured feature in the same list
+				l.items = append(l.items, item{id: 1 + rnd.Intn(3), req: rnd.Bool(), ok: true})
+			}
+			sc.prot = append(sc.prot, pu{u: l})
+			res := negRes{mask: []uint8{0, 2, 2, 64, 0}[rnd.Intn(5)], restart: rnd.Chance(1, 2), err: rnd.Chance(1, 15)}
+			sc.results = append(sc.results, res, negRes{mask: []uint8{0, 2}[rnd.Intn(2)], restart: rnd.Chance(1, 3)})
+			needHdr = res.restart
+		}
+		if needHdr {
+			sc.prot = append(sc.prot, pu{u: hdr(true)})
+		}
+		if rnd.Chance(3, 4) {
+			sc.prot = append(sc.prot, pu{u: list()})
+		}
+		tt := []int{1 + rnd.Intn(3)}
+		if i%6 == 0 {
+			tt = tees
+		}
+		c.check(sc, tt, "deep")
 	}
 }
 
@@ -718,6 +776,7 @@ func Run(r *common.Run) error {
 	c.corpus(all)
 	c.exhaustive(all)
 	c.random(r.Pick(2500, 20000), all)
+	c.deep(r.Pick(800, 8000), all)
 	return nil
 }
 
